@@ -41,7 +41,9 @@ func guard(sigPrefix string, f func()) (v *verdict) {
 // printNode calls printer.Print and demands a string.
 func printNode(c *core.Child, n ast.Node, what string) (string, *verdict) {
 	var out interface{}
-	c.Eval(1)
+	if c != nil {
+		c.Eval(1)
+	}
 	if v := guard("print:panic", func() { out = printer.Print(n) }); v != nil {
 		return "", v
 	}
@@ -55,8 +57,12 @@ func printNode(c *core.Child, n ast.Node, what string) (string, *verdict) {
 }
 
 func parseDoc(text string) (doc *ast.Document, err error, v *verdict) {
+	return parseDocOpts(text, parser.ParseOptions{NoSource: false})
+}
+
+func parseDocOpts(text string, o parser.ParseOptions) (doc *ast.Document, err error, v *verdict) {
 	v = guard("parse:panic", func() {
-		doc, err = parser.Parse(parser.ParseParams{Source: text, Options: parser.ParseOptions{NoSource: false}})
+		doc, err = parser.Parse(parser.ParseParams{Source: text, Options: o})
 	})
 	return
 }
@@ -87,16 +93,6 @@ func onlyField(d *ast.Document) *ast.Field {
 	return f
 }
 
-func nodeOrNil[T any, P interface {
-	*T
-	ast.Node
-}](p P) ast.Node {
-	if p == nil {
-		return nil
-	}
-	return p
-}
-
 // wrapperFor returns how to re-parse Print(n) for the sub-node kinds sampled.
 func wrapperFor(n ast.Node) *wrapper {
 	switch n.(type) {
@@ -107,6 +103,25 @@ func wrapperFor(n ast.Node) *wrapper {
 				return nil
 			}
 			return f.Arguments[0].Value
+		}}
+	case *ast.Name:
+		return &wrapper{name: "name", pre: "{ ", post: " }", extract: func(d *ast.Document) ast.Node {
+			f := onlyField(d)
+			if f == nil || f.Name == nil {
+				return nil
+			}
+			return f.Name
+		}}
+	case *ast.OperationTypeDefinition:
+		return &wrapper{name: "operation type definition", pre: "schema { ", post: " }", extract: func(d *ast.Document) ast.Node {
+			if len(d.Definitions) != 1 {
+				return nil
+			}
+			sd, _ := d.Definitions[0].(*ast.SchemaDefinition)
+			if sd == nil || len(sd.OperationTypes) != 1 {
+				return nil
+			}
+			return sd.OperationTypes[0]
 		}}
 	case *ast.Named, *ast.List, *ast.NonNull:
 		return &wrapper{name: "type", pre: "query ($v: ", post: ") { f }", extract: func(d *ast.Document) ast.Node {
@@ -119,10 +134,10 @@ func wrapperFor(n ast.Node) *wrapper {
 	case *ast.SelectionSet:
 		return &wrapper{name: "selection set", pre: "", post: "", extract: func(d *ast.Document) ast.Node {
 			op := firstOp(d)
-			if op == nil {
+			if op == nil || op.SelectionSet == nil {
 				return nil
 			}
-			return nodeOrNil(op.SelectionSet)
+			return op.SelectionSet
 		}}
 	case *ast.Field, *ast.FragmentSpread, *ast.InlineFragment:
 		return &wrapper{name: "selection", pre: "{ ", post: " }", extract: func(d *ast.Document) ast.Node {
